@@ -414,6 +414,16 @@ func BV2(op Op, a, b *Term) *Term {
 		return r
 	}
 	w := a.S.W
+	// x * c with c "negative": rewrite as -(x * -c); keeps constants small
+	// for the integer encodings (cvc5 --solve-bv-as-int).
+	if op == OpBVMul {
+		if a.Op == OpConst && b.Op != OpConst {
+			a, b = b, a
+		}
+		if b.Op == OpConst && constNegative(b) {
+			return BVNeg(BV2(OpBVMul, a, constNeg(b)))
+		}
+	}
 	// light algebraic simplifications
 	if w <= 64 {
 		switch op {
@@ -462,6 +472,27 @@ func BV2(op Op, a, b *Term) *Term {
 		}
 	}
 	return &Term{Op: op, S: a.S, Args: []*Term{a, b}}
+}
+
+func constNegative(c *Term) bool {
+	w := c.S.W
+	if w <= 64 {
+		return w > 1 && c.Lo&(1<<uint(w-1)) != 0 && c.Lo != 1<<uint(w-1)
+	}
+	return c.Hi&(1<<uint(w-65)) != 0 && !(c.Lo == 0 && c.Hi == 1<<uint(w-65))
+}
+
+func constNeg(c *Term) *Term {
+	w := c.S.W
+	if w <= 64 {
+		return BVConst(-c.Lo, w)
+	}
+	lo := ^c.Lo + 1
+	hi := ^c.Hi
+	if lo == 0 {
+		hi++
+	}
+	return BVConst128(hi, lo, w)
 }
 
 func BVCmp(op Op, a, b *Term) *Term {
